@@ -6,7 +6,7 @@
    every closed bucket keeps its readings when more candles arrive. *)
 From Coq Require Import ZArith List String Bool.
 From Hexital Require Import Base.Prelude Base.Num Model.Manager Model.Candle Model.Readings Model.Engine
-  Proofs.EngineProofs Proofs.CausalProofs Proofs.ComposeProofs Proofs.CompositeProofs Proofs.AtrCompose Proofs.FillCompose Proofs.FillEngine Proofs.DataSlot Proofs.DataInst Proofs.DataThms.
+  Proofs.EngineProofs Proofs.CausalProofs Proofs.ComposeProofs Proofs.CompositeProofs Proofs.AtrCompose Proofs.FillCompose Proofs.FillEngine Proofs.DataSlot Proofs.DataInst Proofs.DataThms Proofs.CompositeData Proofs.ThresCompose.
 Import ListNotations.
 Local Open Scope Z_scope.
 
@@ -110,3 +110,18 @@ Theorem C02_data_series_closed_buckets_final :
   exists tl, D' = removelast Dst ++ tl.
 Proof. exact data_closed_buckets_final. Qed.
 Print Assumptions C02_data_series_closed_buckets_final.
+
+(* no look-ahead for the composite: one calculate() over a longer stream extends the result over the shorter one *)
+Theorem C02_stdevthres_batch_is_causal :
+  forall (O : NumOps) (period : Z) (mult : num O) (input name : string) (rnd : Z),
+  1 <= period -> has_dot name = false ->
+  (forall q, candle_attr O q (sdn name ++ "_data")%string = None) ->
+  stable O (Pt O period mult input name rnd) input -> stable O (St O period input name) input ->
+  stable O (dataM O (St O period input name)) input ->
+  forall (ds more : list (cd (payload O))) (r : store O),
+  Forall (fresh_thres O period mult input name rnd) (ds ++ more) ->
+  calculate O (Pt O period mult input name rnd) (ds ++ more) = Ok r ->
+  exists mid tl, calculate O (Pt O period mult input name rnd) ds = Ok mid /\ r = mid ++ tl.
+Proof. intros O period mult input name rnd Hp Hn Ha H1 H2 H3. apply thres_batch_is_causal; assumption. Qed.
+Print Assumptions C02_stdevthres_batch_is_causal.
+
